@@ -8,7 +8,8 @@ MODULE = "Dbus.Props.C09"
 THEOREMS = ["reply_without_slot_refused", "reply_consumes_slot", "second_reply_finds_no_slot", "no_reply_expected_no_slot",
             "outstanding_serial_refused", "pending_never_duplicated", "callee_gone_one_noreply_each", "timeout_one_noreply_each",
             "noReply_shape", "full_queue_opens_no_slot", "expire_due_one_noreply_each", "reply_deadline_is_fixed",
-            "young_call_survives", "no_reply_timeout_nothing_expires", "timedInv_run", "young_call_survives_reachable"]
+            "young_call_survives", "no_reply_timeout_nothing_expires", "timedInv_run", "young_call_survives_reachable",
+            "slots_between_connected_clients"]
 BUS = "org.freedesktop.DBus"
 ERR = "org.freedesktop.DBus.Error."
 # the system bus default as far as replies go: method calls and signals may be sent, replies only when requested
